@@ -60,7 +60,7 @@ def items(g, where):
 def node(g, where, user_names, is_root=False):
     a = A(g)
     t = a.get('emd_group_type', (None, None))[1]
-    if not is_root and t not in DATA and not (isinstance(t, str) and t.startswith('custom_')):
+    if not is_root and t not in ALL[3:]:          # a data group type, or 'custom_' + a data group type: nothing else (e.g. not 'custom_custom_array')
         return f'{where}: invalid emd_group_type {t!r}'
     if 'python_class' not in a:
         return f'{where}: no python_class'
